@@ -119,7 +119,7 @@ def run_agm(pid, tier, seed, fams, mutants, rule, assumptions, sample=None, repl
             d = dict(c)
             d["variant"] = (v0 + 11 * r) % 30
             # odd replicas of multi-thread cases: threads are frozen in the middle of machine steps (sched.py, MICRO MODE)
-            d["micro"] = (1 + seed * 100003 + i) if (micro and r % 2 == 1 and len(c["prog"]["threads"]) > 1) else 0
+            d["micro"] = (1 + seed * 100003 + 31 * i + r) if (micro and r % 2 == 1 and len(c["prog"]["threads"]) > 1) else 0
             # every second multi-thread case: all threads and nesting levels go through ONE shared grad / make_vjp / make_jvp object
             d["shared_ops"] = bool(micro and len(c["prog"]["threads"]) > 1 and i % 2 == 1)
             cases.append(d)
@@ -371,7 +371,7 @@ def c20(tier, seed, replay=None):
                      "machine-step boundaries, and with the switching thread frozen a pseudo-random number of line events *inside* its next step "
                      "(inside tracer.trace / primitive.f_wrapped / backward_pass / a rule) while the others take their steps; truly simultaneous "
                      "execution of two bytecodes is not explored",
-                     "thread-interleaving model: %s" % json.dumps(extra)], replicas=2, micro=os.environ.get("VERIF_NO_MICRO") != "1")
+                     "thread-interleaving model: %s" % json.dumps(extra)], replicas=2 if q else 6, micro=os.environ.get("VERIF_NO_MICRO") != "1")
     return rc
 
 
